@@ -155,6 +155,26 @@ CLAIMED['C05']['text'] = CLAIMED['C05']['text'] + ' Unit GEN additionally proves
     'new_ returns a fresh singleton element, insert_ makes the tuple visible to the point query immediately for every argument of the same classes, '\
     'the evaluation function returns Some(y) exactly when the row is present (real text, closures with `?`), define_ returns the existing value or a fresh element.'
 
+CLAIMED['C13'] = {
+    'category': 'exploration',
+    'text': 'Bounded: the compiler built from the current tree is run on the probe theories twice in module mode (different input and output directories) and twice in component mode '
+            '(RAYON_NUM_THREADS=1 and 8); every generated text file -- module sources, component sources, digest files -- must be byte-identical between the two runs of a mode. '
+            'A hyperproperty over runs and thread schedules of the whole compiler is not a contract any verifier here can discharge; this is the bounded stand-in.',
+    'design_ref': '§6 C13',
+    'note': 'Bounded stand-in, labelled exploration, never counted as proved. Compiled libraries are not compared; a difference that needs a particular schedule may not show in two runs.',
+    'technique': 'bounded execution of the compiler (two runs per build mode), generated text files compared (labelled bounded)',
+}
+CLAIMED['C19'] = {
+    'category': 'exploration',
+    'text': 'Bounded: the compiler built from the current tree compiles the probe theories as single modules and as modules plus one component library per rule; the generated harness is '
+            'linked against the component libraries the way the build script does, and the whole sweep of API histories is run against both builds: the transcripts (element ids, iterator '
+            'outputs in order, query results) must be identical and neither build may fail a contract the other passes. The clauses about identical environment declarations and '
+            'exported/imported symbols are decided only through linking and behaviour, not by comparing text. A statement about two emitted texts and a linker boundary is not a contract '
+            'a verifier here can discharge; this is the bounded stand-in.',
+    'design_ref': '§6 C19',
+    'note': 'Bounded stand-in, labelled exploration, never counted as proved. Programs are sampled (the probes).',
+    'technique': 'bounded native execution of the generated API against both build modes, transcripts compared (labelled bounded)',
+}
 CLAIMED['C20'] = {
     'category': 'exploration',
     'text': 'Bounded: the whole sweep of the modules emitted for the probe theories (tens of thousands of API call sequences) is executed twice in two separate processes and a digest of '
@@ -171,10 +191,8 @@ NOT_APPLICABLE = {
     'C09': '"rustc accepts the emitted text" is not a postcondition over Display impls; would be translation validation, another family',
     'C10': 'the static checks are ~300 eqlog rules interpreted by generated code; there is no Rust function whose contract is the reference semantics',
     'C12': 'state is a directory tree mutated through std::fs and a rustc child process, quantified over crash points; every callee is external',
-    'C13': 'hyperproperty over runs and thread schedules of the whole compiler (rayon par_bridge); not verifiable code',
     'C15': 'couples a Datalog check, the emitted define_* set and <enum>_cases iterator chains; none within reach',
     'C17': 'recompute_model_indices is generated loop code over iter_restrictions_mut/LazyCell/mapped; its runtime ingredients are covered under C08/C18',
-    'C19': 'statement about two emitted texts and a linker boundary; nothing to annotate',
     # not yet built (will move to CLAIMED as units land)
 }
 
